@@ -9,9 +9,10 @@ import (
 
 // The C10 table.
 var (
-	c10P     = []string{"absent", "unnamed", "named-n", "named-m", "named-base", "metavar", "dot", "blank"}
-	c10F     = []string{"no-imports", "other-paths-only", "unnamed", "name-n", "name-k", "name-base", "dot", "blank", "twice-n-then-k", "twice-k-then-n", "twice-unnamed-then-k", "unnamed-raw-string-path", "name-n-raw-string-path"}
-	c10G2    = []string{"none", "second-holds", "second-fails"}
+	c10P = []string{"absent", "unnamed", "named-n", "named-m", "named-base", "metavar", "dot", "blank"}
+	c10F = []string{"no-imports", "other-paths-only", "unnamed", "name-n", "name-k", "name-base", "dot", "blank", "twice-n-then-k", "twice-k-then-n", "twice-unnamed-then-k", "unnamed-raw-string-path", "name-n-raw-string-path"}
+	// "same-path-named-k": the second guard lists the first path again, under the literal name k (each listing is a guard)
+	c10G2    = []string{"none", "second-holds", "second-fails", "same-path-named-k"}
 	c10Shape = []string{"single", "grouped", "two-blocks"}
 	c10Pkg   = []string{"none", "matching", "non-matching", "rename-matching", "rename-non-matching"}
 	c10Pref  = []string{"context", "minus"}
@@ -120,6 +121,13 @@ func (c c10Cell) expected() bool {
 	if c10G2[c.g2] == "second-fails" {
 		ok = false
 	}
+	if c10G2[c.g2] == "same-path-named-k" {
+		switch c10F[c.f] {
+		case "name-k", "twice-n-then-k", "twice-k-then-n", "twice-unnamed-then-k":
+		default:
+			ok = false
+		}
+	}
 	switch c10Pkg[c.pkg] {
 	case "non-matching", "rename-non-matching":
 		ok = false
@@ -182,7 +190,11 @@ func (c c10Cell) patch() string {
 	case "blank":
 		imp("_", c10Path1)
 	}
-	if c10G2[c.g2] != "none" {
+	switch c10G2[c.g2] {
+	case "none":
+	case "same-path-named-k":
+		imp("k", c10Path1)
+	default:
 		imp("", c10Path2)
 	}
 	switch c10Code[c.code] {
@@ -316,8 +328,8 @@ func init() {
 	core.Register(&core.Prop{
 		ID:    "C10",
 		Level: "exploration",
-		Rule: "exhaustive table of 74880 cells: patch-side import form {absent, unnamed, named n, named other, named like the last path element, metavariable-named, '.', '_'} x file-side form {no imports, other paths only, unnamed, same name, other name, named like the last path element, '.', '_', " +
-			"same path twice under two names (both orders), unnamed+named, path spelled as a raw string literal (unnamed / named)} x second guard import {none, holds, fails} x import block shape {single, grouped, two blocks} x package clause {none, matching, non-matching, rename of matching, rename of non-matching} " +
+		Rule: "exhaustive table of 99840 cells: patch-side import form {absent, unnamed, named n, named other, named like the last path element, metavariable-named, '.', '_'} x file-side form {no imports, other paths only, unnamed, same name, other name, named like the last path element, '.', '_', " +
+			"same path twice under two names (both orders), unnamed+named, path spelled as a raw string literal (unnamed / named)} x second guard import {none, holds, fails, the first path again under another literal name} x import block shape {single, grouped, two blocks} x package clause {none, matching, non-matching, rename of matching, rename of non-matching} " +
 			"x guard line prefix {context, '-'} x kind of the code pattern {expression, expression replaced by several statements, statement, declaration} x package of the file {pk, pk_test}; when the change applies the package clause must be the file's own (or the renamed one); every cell on a file in which the code pattern occurs; library API for all cells, CLI for every 8th batch. Oracle: the change applies iff every guard holds per the statement's table. " +
 			"Every cell is non-trivial and distinct (one configuration each).",
 		Assumptions: []string{"'in the stated form' for a path imported twice: the guard holds if any of the specs has the stated form", "a file without imports cannot hold a second guard: such cells expect 'not applied'"},
